@@ -356,6 +356,123 @@ def execute_kv1_export(desc, ctx):
         ctx.label('via:' + cfg)
 
 
+# -------------------------------------------------------------------------------------------------------- big documents
+
+MULTIBYTE = '\u00e9\u00df\u07ff\u0800\u20ac\u4e2d\uffff\U00010000\U0001f600\U0010ffff'   # 2, 3 and 4 byte UTF-8
+BIG_CHUNKS = [7, 100, 1000, 4095, 4096, 4097, 8191, 8192, 8193, 16384, 100000]
+
+
+def strategy_big(tier: str):
+    """Small descriptors expanded deterministically into 8-64 KiB documents (see `_big_graph`)."""
+    unit = st.tuples(
+        st.text(st.characters(exclude_categories=['Cs'], exclude_characters='\x00'), max_size=6),
+        st.text(MULTIBYTE, min_size=1, max_size=4),
+        st.text('ab "\\\n', max_size=2),
+    ).map(''.join)
+
+    def with_repeat(pair):
+        unit, base = pair
+        return unit, -(-base // len(unit.encode('utf8')))
+
+    sized = st.tuples(unit, st.integers(8300, 21000)).map(with_repeat)
+    return st.tuples(
+        sized, st.integers(0, 7), st.integers(0, 4), st.integers(0, 2), st.booleans(),
+        st.sampled_from(['format', 'silent']), st.sampled_from(BIG_CHUNKS), st.integers(7, 20000), st.booleans(),
+    ).map(lambda t: {
+        'unit': t[0][0], 'repeat': t[0][1], 'pad': t[1], 'pieces': t[2], 'kids': t[3], 'flat': t[4], 'mode': t[5],
+        'chunk': t[6] if t[8] else t[7],
+    })
+
+
+def _big_graph(desc) -> dict:
+    """unit*repeat is 8.3-21 KiB of UTF-8; with the array pieces and child elements the export is 8-64 KiB.
+    The ASCII pad in the first attribute shifts everything behind it, so across cases the multi-byte characters
+    take every alignment relative to the 4096/8192/16384-byte block boundaries."""
+    unit, rep = desc['unit'], desc['repeat']
+    elems = [{
+        'type': 'DmElement', 'name': 'root', 'uuid': f'{1:032x}',
+        'attrs': [
+            ['pad', 'string', False, 'p' * desc['pad']],
+            ['big', 'string', False, unit * rep],
+            ['pieces', 'string', True, [unit * (rep // 4 + i) for i in range(desc['pieces'])]],
+            ['kids', 'element', True, [['e', k + 1] for k in range(desc['kids'])] + [['e', 0]]],
+        ],
+    }]
+    for k in range(desc['kids']):
+        elems.append({
+            'type': 'Dm' + unit[:3].replace('\n', ''), 'name': unit * (k + 1), 'uuid': f'{k + 2:032x}',
+            'attrs': [[unit[:6] + 'K', 'string', False, unit * (rep // 2)], ['n', 'int', False, k]],
+        })
+    if any(dmxgen.type_is_kv2_keyword(e['type']) for e in elems):
+        for e in elems[1:]:
+            e['type'] = 'Dm'
+    return {'elems': elems}
+
+
+class ShortReadFile(io.BytesIO):
+    """A binary file whose read calls return at most ``chunk`` bytes at a time (legal for any stream; the text
+    layer has to cope with characters split between two reads)."""
+    def __init__(self, data: bytes, chunk: int) -> None:
+        super().__init__(data)
+        self.chunk = chunk
+
+    def read(self, size=-1):
+        if size is None or size < 0 or size > self.chunk:
+            size = self.chunk
+        return super().read(size)
+
+    read1 = read
+
+    def readinto(self, buf):
+        data = self.read(len(buf))
+        buf[:len(data)] = data
+        return len(data)
+
+    readinto1 = readinto
+
+
+def execute_big(desc, ctx):
+    from srctools.dmx import Element
+    graph = _big_graph(desc)
+    want = dmxgen.canon_desc(graph)
+    root = dmxgen.build_graph(graph)
+    mode = desc['mode']
+    unicode = mode == 'silent'
+    sizes = []
+
+    def roundtrip(cfg, data, enc):
+        sizes.append(len(data))
+        for how in ('bytesio', 'short'):
+            if how == 'short' and not cfg.startswith('keyvalues2'):
+                continue   # the binary parser issues exact-size reads; partial reads are only meaningful for text
+            file = io.BytesIO(data) if how == 'bytesio' else ShortReadFile(data, desc['chunk'])
+            try:
+                parsed, _, _ = Element.parse(file, unicode=unicode)
+            except Exception as exc:
+                _annotate(exc, f'{cfg}, {len(data)} bytes, read via {how} (chunk {desc["chunk"]})')
+                raise
+            diff = dmxgen.canon_diff(want, dmxgen.canon_graph(parsed), float_tol=TEXT_TOL if enc == 'kv2' else 0.0)
+            ctx.check(diff is None, 'graph', f'{cfg} ({len(data)} bytes, read via {how}, chunk {desc["chunk"]}): '
+                      f'parse(export(g)) is not isomorphic to g: {str(diff)[:600]}', cfg=cfg, how=how)
+        ctx.label(f'{enc}:{mode}')
+
+    buf = io.BytesIO()
+    root.export_kv2(buf, flat=desc['flat'], unicode=mode)
+    roundtrip(f'keyvalues2 flat={desc["flat"]} unicode={mode}', buf.getvalue(), 'kv2f' if desc['flat'] else 'kv2n')
+    for version in (2, 5):
+        buf = io.BytesIO()
+        root.export_binary(buf, version, unicode=mode)
+        roundtrip(f'binary v{version} unicode={mode}', buf.getvalue(), f'bin{version}')
+    data_len = sizes[0]
+    ctx.nontrivial(data_len > 8192 and any(ord(c) > 127 for c in desc['unit']))
+    ctx.label('size:' + ('8-16K' if data_len < 16384 else '16-32K' if data_len < 32768 else '32K+'))
+    ctx.label(f'pad:{desc["pad"]}')
+    ctx.label('chunk:small' if desc['chunk'] < 4096 else 'chunk:block' if desc['chunk'] in (4096, 8192, 16384)
+              else 'chunk:other')
+    width = {len(c.encode('utf8')) for c in desc['unit']}
+    ctx.label(*[f'utf8:{w}' for w in sorted(width)])
+
+
 # ------------------------------------------------------------------------------------------------------------ sub-checks
 
 def _cells_must(encs, skip=()):
@@ -384,5 +501,11 @@ SUBCHECKS = [
     Sub('kv1-export', execute_kv1_export, strategy=strategy_kv1, quick=600, thorough=20000, floor=20, quick_shards=1,
         must_hit=('via:binary5', 'via:kv2', 'mixed', 'dup_leaf')),
 ]
+
+SUBCHECKS.append(
+    Sub('big_documents', execute_big, strategy=strategy_big, quick=400, thorough=6000, floor=100, quick_shards=2,
+        must_hit=tuple(f'pad:{k}' for k in range(8)) + tuple(
+            f'{enc}:{mode}' for enc in ('kv2n', 'kv2f', 'bin2', 'bin5') for mode in ('format', 'silent'))
+        + ('utf8:2', 'utf8:3', 'utf8:4', 'size:8-16K', 'size:16-32K', 'size:32K+', 'chunk:small', 'chunk:block')))
 
 MATCHERS = {}
